@@ -1,5 +1,11 @@
 -- GENERATED on every check run by tools/gen_consts.py from /repo's working tree — do not edit
 namespace Gen
 
+/-- `transports/dns/src/lib.rs`: `const MAX_DIAL_ATTEMPTS: usize = 16;` -/
+def MAX_DIAL_ATTEMPTS : Nat := 16
+/-- `transports/dns/src/lib.rs`: `const MAX_DNS_LOOKUPS: usize = 32;` -/
+def MAX_DNS_LOOKUPS : Nat := 32
+/-- `transports/dns/src/lib.rs`: `const MAX_TXT_RECORDS: usize = 16;` -/
+def MAX_TXT_RECORDS : Nat := 16
 
 end Gen
